@@ -70,6 +70,9 @@ def classify_cond(node, val, sets):
                 x = strip(x[2][0])
                 unwrapped = True
             xl = leaf_name(x)
+            if xl is None and x[0] in ("call", "proj"):
+                from ..exprs import origin_desc
+                xl = origin_desc(x)        # e.g. a helper applied to the element: named, so that the report can say what is tested instead
             if xl and xl.endswith("@Some.0"):
                 xl = xl[:-len("@Some.0")]
             return ("member", setn, xl, val)
@@ -167,7 +170,10 @@ def run(ctx):
         if len(neg) == 1:
             cands = [(idx, canon, idn, loc, [m for m in mem if m[3] is False]) for (idx, canon, idn, loc, mem) in neg]
         if len(cands) != 1:
-            ctx.violation("c15.link", key, "expected exactly one warning guarded by a membership test of %s, found %d" % (want_elem, len(cands)), check.loc())
+            tested = sorted({c[2] for (canon, idn, loc, recv, sc) in results for c in canon if c[0] == "member" and c[2] and c[2].startswith(("model.%s[]" % owner, owner)) or
+                             (c[0] == "member" and c[2] and "model.%s[]" % owner in c[2])})
+            ctx.violation("c15.link", key, "expected exactly one warning guarded by a membership test of %s, found %d (membership tests on elements of model.%s: %s)"
+                          % (want_elem, len(cands), owner, tested), check.loc())
             continue
         idx, canon, idn, loc, mem = cands[0]
         used.add(idx)
